@@ -9,7 +9,7 @@
 //! Every reader counts the requests it served short, so that the floors can prove that short reads
 //! really happened.
 
-use std::io::{self, BufReader, Cursor, ErrorKind, Read, Write};
+use std::io::{self, BufReader, Cursor, ErrorKind, Read, Seek, SeekFrom, Write};
 
 // ---------------------------------------------------------------------------------------------
 // readers
@@ -120,6 +120,61 @@ impl Read for Scripted<'_> {
 		self.pos += n;
 		self.trace.consumed += n;
 		Ok(n)
+	}
+}
+
+/// seeking moves the position; the boundaries stay where they are in the data
+impl Seek for Scripted<'_> {
+	fn seek(&mut self, to: SeekFrom) -> io::Result<u64> {
+		let target = match to {
+			SeekFrom::Start(p) => p as i128,
+			SeekFrom::Current(d) => self.pos as i128 + d as i128,
+			SeekFrom::End(d) => self.data.len() as i128 + d as i128,
+		};
+		if target < 0 {
+			return Err(io::Error::new(ErrorKind::InvalidInput, "seek before the start"));
+		}
+		// like a cursor, a position behind the end is allowed and reads nothing
+		self.pos = (target as usize).min(self.data.len());
+		self.interrupted_last = false;
+		Ok(self.pos as u64)
+	}
+}
+
+pub trait ReadSeek: Read + Seek {}
+impl<T: Read + Seek> ReadSeek for T {}
+
+/// like `with_reader`, for code that also seeks (duke's class reader); `consumed` is the final position
+pub fn with_seek_reader<T>(kind: ReaderKind, data: &[u8], f: impl FnOnce(&mut dyn ReadSeek) -> T) -> (T, ReadTrace) {
+	let run = |mut s: Scripted, f: &mut dyn FnMut(&mut dyn ReadSeek) -> T| {
+		let r = f(&mut s);
+		(r, ReadTrace { consumed: s.pos, ..s.trace })
+	};
+	let mut f = Some(f);
+	let mut call = |r: &mut dyn ReadSeek| (f.take().expect("called once"))(r);
+	match kind {
+		ReaderKind::Slice | ReaderKind::CursorVec => {
+			let mut c = Cursor::new(data.to_vec());
+			let r = call(&mut c);
+			(r, ReadTrace { consumed: c.position() as usize, ..Default::default() })
+		},
+		ReaderKind::Chunk(k) => run(scripted(data, k, Boundary::None, false), &mut call),
+		ReaderKind::Interrupted(k) => run(scripted(data, k, Boundary::None, true), &mut call),
+		ReaderKind::SplitAt(p) => run(scripted(data, usize::MAX, Boundary::At(p), false), &mut call),
+		ReaderKind::Periodic { period, phase } => run(scripted(data, usize::MAX, Boundary::Every { period, phase }, false), &mut call),
+		ReaderKind::Buf(cap) => {
+			let mut b = BufReader::with_capacity(cap, Cursor::new(data));
+			let r = call(&mut b);
+			let consumed = b.stream_position().map(|p| p as usize).unwrap_or(usize::MAX);
+			(r, ReadTrace { consumed, ..Default::default() })
+		},
+		ReaderKind::BufOverChunk3(cap) => {
+			let mut b = BufReader::with_capacity(cap, scripted(data, 3, Boundary::None, false));
+			let r = call(&mut b);
+			let consumed = b.stream_position().map(|p| p as usize).unwrap_or(usize::MAX);
+			let t = b.get_ref().trace;
+			(r, ReadTrace { consumed, ..t })
+		},
 	}
 }
 
@@ -368,6 +423,26 @@ pub fn self_test() -> Result<(), String> {
 		}
 		if matches!(k, ReaderKind::Interrupted(_)) && trace.interrupts == 0 {
 			return Err(format!("reader {k:?} never interrupted"));
+		}
+	}
+	// seeking readers: read 10, skip 20 forward, read 30, go back to 5, read 5
+	for (k, _) in kinds {
+		let (got, _) = with_seek_reader(k, &data, |r| -> io::Result<Vec<u8>> {
+			let mut a = vec![0u8; 10];
+			r.read_exact(&mut a)?;
+			r.seek(SeekFrom::Current(20))?;
+			let mut b = vec![0u8; 30];
+			r.read_exact(&mut b)?;
+			r.seek(SeekFrom::Start(5))?;
+			let mut c = vec![0u8; 5];
+			r.read_exact(&mut c)?;
+			a.extend(b);
+			a.extend(c);
+			Ok(a)
+		});
+		let want: Vec<u8> = data[0..10].iter().chain(&data[30..60]).chain(&data[5..10]).copied().collect();
+		if got.ok() != Some(want) {
+			return Err(format!("seeking reader {k:?} does not reproduce its data"));
 		}
 	}
 	let wkinds = [WriterKind::CursorVec, WriterKind::Chunk(1), WriterKind::Chunk(3), WriterKind::Interrupted(2), WriterKind::SplitAt(17), WriterKind::Buf(7), WriterKind::ExactSlice];
